@@ -32,7 +32,7 @@ def P(pid, rules, technique, decides, not_decided, assumptions=(),
     }
 
 
-P("C01", ["R08", "R09", "R10", "R11", "R12", "R13c", "R17", "R07", "R34", "R39", "R41", "R04", "R47", "R50"],
+P("C01", ["R08", "R09", "R10", "R11", "R12", "R13c", "R17", "R07", "R34", "R39", "R41", "R04", "R47", "R50", "R36"],
   "typestate abstract interpretation (dirty/clean fields), carry-loop "
   "symbolic agreement, unit-of-measure inference",
   "R08 in TimePoint.__add__ every incremented time/day field is followed by "
@@ -59,7 +59,7 @@ P("C01", ["R08", "R09", "R10", "R11", "R12", "R13c", "R17", "R07", "R34", "R39",
   ["unit declarations of sa/rules/scale.py (slot -> unit, radix -> ratio), "
    "printed with each obligation"])
 
-P("C02", ["R14", "R15", "R16", "R12", "R08", "R09", "R10", "R43", "R47", "R04", "R50"],
+P("C02", ["R14", "R15", "R16", "R12", "R08", "R09", "R10", "R43", "R47", "R04", "R50", "R07", "R13ab"],
   "def-use derivation of comparison-key operands, operator routing checks",
   "R15 every operand whose date/time fields feed the lexicographic key of "
   "_cmp, the hashed tuple of __hash__ and the field-wise difference of "
@@ -76,7 +76,7 @@ P("C02", ["R14", "R15", "R16", "R12", "R08", "R09", "R10", "R43", "R47", "R04", 
   "conversions C01/C03 are right), float ties in the second-of-day.",
   [], [])
 
-P("C03", ["R13ab", "R11", "R04", "R07", "R12", "R39", "R49"],
+P("C03", ["R13ab", "R11", "R04", "R07", "R12", "R39", "R49", "R36"],
   "structural slot-group and dispatch-matrix checks, leap-table polarity, "
   "cache-key discipline",
   "(thin) R13a each to_*_date fills exactly its own slot group from the "
@@ -95,7 +95,7 @@ P("C03", ["R13ab", "R11", "R04", "R07", "R12", "R39", "R49"],
   "cycle is the right tool and is outside this family.",
   [], ["definition table MODE_DEF (from the property text)"])
 
-P("C04", ["R12", "R14", "R15", "R32", "R17", "R08", "R09", "R10", "R41", "R04", "R47"],
+P("C04", ["R12", "R14", "R15", "R32", "R17", "R08", "R09", "R10", "R41", "R04", "R47", "R07", "R13ab"],
   "unit-of-measure inference, def-use derivation, order-agreement checks",
   "R12 the Duration returned by TimePoint - TimePoint is built from "
   "days/hours/minutes/seconds keywords only, each fed a value of that "
@@ -108,7 +108,7 @@ P("C04", ["R12", "R14", "R15", "R32", "R17", "R08", "R09", "R10", "R41", "R04", 
   "get_days_in_year_range) and the round-trip identities.",
   [], [])
 
-P("C05", ["R08", "R10", "R11", "R13c", "R13ab", "R09", "R34", "R47", "R04", "R50"],
+P("C05", ["R08", "R10", "R11", "R13c", "R13ab", "R09", "R34", "R47", "R04", "R50", "R07", "R36"],
   "typestate abstract interpretation with clamp/wrap idioms, field/length "
   "agreement",
   "R08 in add_months every single month step is followed by the clamp "
@@ -125,7 +125,7 @@ P("C05", ["R08", "R10", "R11", "R13c", "R13ab", "R09", "R34", "R47", "R04", "R50
   [], [])
 
 P("C06", ["R14", "R13c", "R08", "R09", "R10", "R11", "R12", "R15", "R22",
-          "R26", "R17", "R38", "R34", "R43", "R47", "R04", "R42", "R50"],
+          "R26", "R17", "R38", "R34", "R43", "R47", "R04", "R42", "R50", "R07"],
   "structural conversion-path checks, typestate, sign-domain evaluation",
   "R14 every converting path of to_time_zone shifts by (destination - own "
   "offset) - orientation cross-checked against get_time_zone_offset - and "
@@ -143,7 +143,7 @@ P("C06", ["R14", "R13c", "R08", "R09", "R10", "R11", "R12", "R15", "R22",
   "of C01 and the comparison of C02).",
   [], [])
 
-P("C07", ["R23", "R24", "R25", "R26", "R12", "R36", "R37", "R38", "R48", "R35"],
+P("C07", ["R23", "R24", "R25", "R26", "R12", "R36", "R37", "R38", "R48", "R35", "R52"],
   "constant folding / partial evaluation of the parser tables, regex-AST "
   "shape intersection",
   "R23 every translate row agrees with itself (one named group, capture "
@@ -170,7 +170,7 @@ P("C07", ["R23", "R24", "R25", "R26", "R12", "R36", "R37", "R38", "R48", "R35"],
   ["token -> field oracle transcribed from the README syntax tables (about "
    "20 entries, sa/rules/tablerules.py)"])
 
-P("C08", ["R24", "R23", "R14", "R26", "R35", "R37", "R38", "R48", "R36"],
+P("C08", ["R24", "R23", "R14", "R26", "R35", "R37", "R38", "R48", "R36", "R09"],
   "path enumeration of the default dump format, folded table agreement",
   "R24 each of the 24 strings _get_dump_format can return (4 time shapes x "
   "2 zone shapes x 3 date tails, enumerated over its paths) is an extended "
@@ -184,7 +184,7 @@ P("C08", ["R24", "R23", "R14", "R26", "R35", "R37", "R38", "R48", "R36"],
   "equality after the 6-digit float truncation; custom formats in general.",
   [], [])
 
-P("C09", ["R20", "R21", "R22", "R10", "R11", "R23", "R31", "R33", "R12", "R36", "R04", "R50"],
+P("C09", ["R20", "R21", "R22", "R10", "R11", "R23", "R31", "R33", "R12", "R36", "R04", "R50", "R07", "R53"],
   "call-graph reachability of raise sites, must-pass-through analysis, "
   "bound-kind checks, regex star height",
   "R21 with both bypass flags off every exit of TimePoint.__init__ has "
@@ -209,7 +209,7 @@ P("C09", ["R20", "R21", "R22", "R10", "R11", "R23", "R31", "R33", "R12", "R36", 
    "by name: reachable only through error-message formatting of an already "
    "constructed point"], [])
 
-P("C10", ["R27", "R26", "R12"],
+P("C10", ["R27", "R26", "R12", "R40"],
   "folded writer list vs regex-AST reader sequence",
   "(thin) R27 the designator sequence Duration.__str__ emits (Y M D T H M "
   "S; W alone) equals, unit for unit and in order, the (group, literal) "
@@ -238,7 +238,7 @@ P("C11", ["R16", "R17", "R12", "R07", "R40", "R41"],
   "and a month of 30 days.",
   "associativity/identity laws over float components.", [], [])
 
-P("C12", ["R18", "R19", "R04"],
+P("C12", ["R18", "R19", "R04", "R07"],
   "finite-domain abstract interpretation of the recurrence constructor and "
   "__iter__",
   "R18 for each of the 13 reachable abstract post-states of the "
@@ -376,7 +376,7 @@ P("C19", ["R30", "R20", "R32", "R12", "R51"],
    "outside the handler (an environment variable, not an argument) - noted"],
   [])
 
-P("C20", ["R08", "R14", "R09", "R10", "R12", "R23", "R13c", "R36", "R46", "R47", "R04"],
+P("C20", ["R08", "R14", "R09", "R10", "R12", "R23", "R13c", "R36", "R46", "R47", "R04", "R07"],
   "typestate abstract interpretation of the search loops",
   "(thin) R08 in each of the seven in-scope search loops of add_truncated "
   "the incremented field is normalised by _tick_over() before the loop "
